@@ -24,7 +24,7 @@ CLAIMED["C01"] = (
     "TLA+ specs RuxPattern (set-valued pattern semantics) + RuxIndex (three-tier index as a state machine, operational "
     "Lookup vs declarative Select) model-checked with TLC; every table x every path replayed on Router.Add/Match; random big "
     "tables recorded from the real router and validated by TLC (TraceIndex)",
-    "TLC enumerates every table of <=2 routes over a 49-pattern pool (<=3 over 25 patterns in the thorough tier) and checks "
+    "TLC enumerates every table of <=2 routes over the pattern pool spec/pools/pool49.txt (56 patterns; <=3 over 25 patterns in the thorough tier) and checks "
     "Lookup = Select for every path of <=5/6 characters; each table is rebuilt on the real router (plain and caching) and every "
     "(method, path) cell is compared with the model; traces of random tables (<=10 routes, nine methods, fresh patterns, paths "
     "<=16) are validated event by event against the Register action and the declarative selection.",
